@@ -305,3 +305,275 @@ Section LeafMakers.
       + exists (Pos.succ (h_next H)). split; [done|]. split; [cbn; lia|]. cbn. by rewrite lookup_insert.
   Qed.
 End LeafMakers.
+
+(** * PART 2: the loop *)
+
+(** ** more about [free_all] *)
+Lemma free_all_str_lookup bs h i : i ∉ bs -> h_str (free_all bs h) !! i = h_str h !! i.
+Proof.
+  revert h. induction bs as [|b bs IH]; intros h Hi; [done|]. apply not_elem_of_cons in Hi as [H1 H2].
+  rewrite free_all_cons, IH by done. cbn. by rewrite lookup_delete_ne.
+Qed.
+Lemma free_all_req bs h : h_req (free_all bs h) = h_req h.
+Proof. revert h. induction bs as [|c bs IH]; intros h; [done|]. by rewrite free_all_cons, IH. Qed.
+Lemma free_all_hooks bs h : h_hooks (free_all bs h) = h_hooks h.
+Proof. revert h. induction bs as [|c bs IH]; intros h; [done|]. by rewrite free_all_cons, IH. Qed.
+Lemma free_all_trace bs h : exists evs, h_trace (free_all bs h) = evs ++ h_trace h.
+Proof.
+  revert h. induction bs as [|c bs IH]; intros h; [by exists []|]. rewrite free_all_cons.
+  destruct (IH (free1 c h)) as [evs ->]. cbn. exists (evs ++ [EvFree c (via_free h)]). by rewrite <- app_assoc.
+Qed.
+
+(** the local encoding only depends on data, forward links, liveness and ownership tags *)
+Lemma Enc_transfer h h' ts :
+  Enc h ts -> h_dat h' = h_dat h ->
+  (forall b e, h_lnk h !! b = Some e -> exists pv, h_lnk h' !! b = Some (e.1, pv)) ->
+  (forall b, b ∈ owned_fl (flat ts) -> b ∈ h_live h -> b ∈ h_live h') ->
+  (forall b, b ∈ owned_fl (flat ts) -> h_own h !! b = Some Lib -> h_own h' !! b = Some Lib) ->
+  Enc h' ts.
+Proof.
+  intros [E1 E2 E3 E4 E5 E6] Hd Hl Hlive Hown. constructor; try done.
+  - intros i d ks Hin. rewrite Hd. by apply E1.
+  - intros j c Hj. destruct (E2 j c Hj) as [pv Hpv]. destruct (Hl _ _ Hpv) as [pv' Hpv']. by exists pv'.
+  - intros i d ks j c Hin Hj. destruct (E3 i d ks j c Hin Hj) as [pv Hpv]. destruct (Hl _ _ Hpv) as [pv' Hpv']. by exists pv'.
+  - intros b Hb. destruct (E5 b Hb) as [H1 H2]. split; [by apply Hlive|by apply Hown].
+Qed.
+
+Lemma upd_maps_inj h L D L' D' : upd_maps h L D = upd_maps h L' D' -> L = L' /\ D = D'.
+Proof. unfold upd_maps. intros H. by injection H. Qed.
+
+Lemma set_children_snoc_root F x d cs cs' : x ∉ ids F -> set_children x cs' (F ++ [T x d cs]) = F ++ [T x d cs'].
+Proof.
+  intros Hx. unfold set_children. rewrite fmap_app. fold (set_children x cs' F). rewrite set_children_notin by done.
+  cbn. by rewrite decide_True.
+Qed.
+Lemma find_tree_snoc_root F t : NoDup (ids (F ++ [t])) -> find_tree (tid t) (F ++ [t]) = Some t.
+Proof.
+  intros ND. apply find_tree_unique; [done| |done]. rewrite nodes_app. apply elem_of_app. right.
+  apply roots_in_nodes. by left.
+Qed.
+Lemma find_root_snoc F t : tid t ∉ roots F -> find_root (tid t) (F ++ [t]) = Some t.
+Proof. intros H. rewrite find_root_app_r by done. unfold find_root. cbn. by rewrite bool_decide_eq_true_2. Qed.
+
+Lemma owned_fl_root_snoc x d (ls : list tree) y dy :
+  forall b, b ∈ owned_fl (flat [T x d (ls ++ [T y dy []])]) <-> b ∈ owned_fl (flat [T x d ls]) ++ y :: owned_strs dy.
+Proof.
+  intros b. rewrite !flat_singleton, !flat_t_unfold, !owned_fl_cons, flat_app, owned_fl_app, flat_singleton, flat_t_unfold.
+  cbn [flat fmap list_fmap nodes mbind list_bind]. rewrite owned_fl_cons. unfold owned_fn. cbn [fn_id fn_data fst snd].
+  change (owned_fl []) with (@nil positive). rewrite app_nil_r. rewrite !elem_of_app, !elem_of_cons, !elem_of_app, !elem_of_cons. tauto.
+Qed.
+
+Section Loop.
+  Context (oracle : nat -> bool) (h : heap) (F : forest).
+  Hypothesis W : WF h F.
+  Hypothesis LB : live_below h.
+  Local Notation a := (h_next h).
+  Definition arr : rdata := rd_of_type c_cJSON_Array.
+
+  (** the data specification of the leaves: [Q k H d] = "[d] is what element [k] must be", read in heap [H];
+      stable under heap growth *)
+  Variable Q : nat -> heap -> rdata -> Prop.
+  Hypothesis Q_upd : forall k H d L D, Q k H d -> Q k (upd_maps H L D) d.
+  Hypothesis Q_ext : forall k H H' N d, Q k H d -> Ext H H' N -> Q k H' d.
+
+  (** the actual heap during the loop: the canonical one with the head's [prev] still NULL *)
+  Definition act (Hc : heap) (leaves : list tree) : heap :=
+    upd_maps Hc (match head (tid <$> leaves) with
+                 | Some c0 => upd_prev c0 None (h_lnk Hc)
+                 | None => h_lnk Hc
+                 end) (h_dat Hc).
+
+  Record Inv (Hc : heap) (leaves : list tree) : Prop := mkInv {
+    inv_wf : WF Hc (F ++ [T a arr leaves]);
+    inv_ext : Ext h Hc (owned_fl (flat [T a arr leaves]));
+    inv_q : forall j t, leaves !! j = Some t -> exists x d, t = T x d [] /\ Q j Hc d
+  }.
+
+  Lemma a_notin : a ∉ ids F.
+  Proof. intros Hin. pose proof (WF_ids_fresh _ _ _ W Hin). lia. Qed.
+
+  Lemma Inv_facts Hc leaves :
+    Inv Hc leaves ->
+    let ks := tid <$> leaves in
+    (a, arr, ks) ∈ flat (F ++ [T a arr leaves]) /\
+    a ∈ h_live Hc /\ h_dat Hc !! a = Some (mk_dat arr ks) /\
+    NoDup ks /\ (forall c, c ∈ ks -> c ∈ h_live Hc /\ c <> a /\ (c < h_next Hc)%positive /\ (a < c)%positive) /\
+    (forall k c, ks !! k = Some c -> h_lnk Hc !! c = Some (link_at ks k)) /\
+    (a < h_next Hc)%positive /\ live_below Hc /\ h_lnk Hc !! a = Some (None, None).
+  Proof.
+    intros [Wk Ek _] ks. pose proof (wf_nodup _ _ Wk) as ND.
+    assert (Hin : (a, arr, ks) ∈ flat (F ++ [T a arr leaves])).
+    { rewrite flat_app, flat_singleton, flat_t_unfold. apply elem_of_app. right. by left. }
+    assert (Hai : a ∈ ids (F ++ [T a arr leaves])) by (rewrite ids_flat; apply elem_of_list_fmap; by exists (a, arr, ks)).
+    assert (NDk : NoDup ks).
+    { apply elem_of_Permutation in Hin as [FL HFL].
+      destruct (heap_lnk_of_focus _ _ _ _ _ _ ND (reflexivity _) HFL) as [_ HN]. by apply NoDup_app in HN as [? _]. }
+    split; [done|]. split; [by apply (WF_ids_live _ _ _ Wk)|]. split; [by apply (WF_lookup_dat _ _ _ _ _ Wk)|].
+    split; [done|]. split; [|split; [|split; [by apply (WF_ids_fresh _ _ _ Wk)|split]]].
+    - intros c Hc. pose proof (cids_in_ids _ _ _ _ _ Hin Hc) as Hci.
+      split; [by apply (WF_ids_live _ _ _ Wk)|]. split; [|split; [by apply (WF_ids_fresh _ _ _ Wk)|]].
+      + intros ->. apply elem_of_Permutation in Hin as [FL HFL].
+        destruct (heap_lnk_of_focus _ _ _ _ _ _ ND (reflexivity _) HFL) as [_ HN]. apply NoDup_app in HN as (_ & HN & _).
+        apply (HN _ Hc). unfold lnk_keys. apply elem_of_app. left. rewrite roots_app. apply elem_of_app. right. by left.
+      + assert (Hco : c ∈ owned_fl (flat [T a arr leaves])).
+        { apply (ids_subseteq_owned [T a arr leaves]). eapply (cids_in_ids [T a arr leaves] a arr ks); [|done].
+          rewrite flat_singleton, flat_t_unfold. by left. }
+        destruct (ext_new _ _ _ Ek c Hco) as [Hr _].
+        assert (c <> a); [|lia]. intros ->.
+        apply elem_of_Permutation in Hin as [FL HFL].
+        destruct (heap_lnk_of_focus _ _ _ _ _ _ ND (reflexivity _) HFL) as [_ HN]. apply NoDup_app in HN as (_ & HN & _).
+        apply (HN _ Hc). unfold lnk_keys. apply elem_of_app. left. rewrite roots_app. apply elem_of_app. right. by left.
+    - intros k c Hk. by apply (WF_lookup_lnk_child _ _ _ _ _ _ _ Wk Hin Hk).
+    - by apply (Ext_live_below _ _ _ LB Ek).
+    - apply (WF_lookup_lnk_root _ _ _ Wk). rewrite roots_app. apply elem_of_app. right. by left.
+  Qed.
+
+  Lemma act_nil Hc : act Hc [] = Hc.
+  Proof. unfold act. cbn. apply upd_maps_id. Qed.
+
+  Lemma Ext_act Hc leaves H' N : Ext (act Hc leaves) H' N -> Ext Hc H' N.
+  Proof. apply Ext_of_upd_maps_l. Qed.
+
+  Lemma maps_below_act Hc leaves : Inv Hc leaves -> maps_below (act Hc leaves).
+  Proof.
+    intros I b Hb. destruct (WF_maps_below _ _ (inv_wf _ _ I) b Hb) as [H1 H2]. cbn. split; [|done].
+    destruct (head (tid <$> leaves)) as [c0|]; [|done].
+    destruct (decide (c0 = b)) as [->|Hne]; [by rewrite lookup_upd_prev, H1|by rewrite lookup_upd_prev_ne].
+  Qed.
+  Lemma live_below_act Hc leaves : Inv Hc leaves -> live_below (act Hc leaves).
+  Proof. intros I. apply live_below_upd_maps. apply (Ext_live_below _ _ _ LB (inv_ext _ _ I)). Qed.
+  Lemma Readable_act Hc leaves sb : Inv Hc leaves -> Readable h sb -> Readable (act Hc leaves) sb.
+  Proof.
+    intros I (H1 & s & H2 & H3). pose proof (LB _ H1) as Hlt. split.
+    - cbn. apply (ext_live _ _ _ (inv_ext _ _ I)). by left.
+    - exists s. cbn. destruct (ext_below _ _ _ (inv_ext _ _ I) sb Hlt) as [-> _]. done.
+  Qed.
+  Lemma str_at_act Hc leaves sb : Inv Hc leaves -> sb ∈ h_live h -> str_at (act Hc leaves) sb = str_at h sb.
+  Proof.
+    intros I H1. pose proof (LB _ H1) as Hlt. unfold str_at. cbn.
+    destruct (ext_below _ _ _ (inv_ext _ _ I) sb Hlt) as [-> _]. done.
+  Qed.
+
+  (** ** one successful iteration *)
+  Lemma step_ok Hc leaves H' x d :
+    Inv Hc leaves -> grows_leaf (act Hc leaves) H' x d -> Q (length leaves) H' d ->
+    exists Hc', Inv Hc' (leaves ++ [T x d []]) /\
+      (if (Z.of_nat (length leaves) =? 0)%Z then set_child (Some a) (Some x)
+       else suffix_object (last (tid <$> leaves)) (Some x)) H' = Ret (tt, act Hc' (leaves ++ [T x d []])).
+  Proof.
+    intros I G HQ. pose proof I as [Wk Ek Qk]. destruct (Inv_facts _ _ I) as (Hin & Hla & Hda & NDk & Hks & Hlk & Hanext & LBc & Hlnka).
+    destruct G as [Gx Gl Gd Ge Gn Gr]. cbn [act upd_maps h_lnk h_dat h_next] in Gx, Gl, Gd.
+    set (ks := tid <$> leaves) in *. set (Fk := F ++ [T a arr leaves]) in *. set (leaf := T x d []).
+    apply Ext_act in Ge.
+    assert (Hxa : a <> x) by (subst x; lia).
+    assert (Hxks : x ∉ ks) by (intros Hc; destruct (Hks _ Hc) as (_ & _ & Hlt & _); subst x; lia).
+    (* the leaf as a detached root of the canonical heap *)
+    set (L1 := <[x := (None, None)]> (h_lnk Hc)). set (D1 := h_dat H').
+    set (Hc1 := upd_maps H' L1 D1).
+    assert (W1 : WF Hc1 (Fk ++ [leaf])).
+    { apply (WF_new_root Hc Hc1 Fk x d Wk); try done.
+      - subst x. apply (WF_next_notin _ _ Wk).
+      - intros b Hb Hbo. destruct (ext_new _ _ _ Ge b ltac:(by right)) as [Hr _]. pose proof (wf_fresh _ _ Wk _ Hbo). lia.
+      - intros b Hb. cbn. apply elem_of_app in Hb as [Hb|Hb].
+        + destruct (ext_new _ _ _ Ge b Hb) as [Hr Ho]. split; [apply (ext_live _ _ _ Ge); by right|]. split; [done|lia].
+        + pose proof (wf_fresh _ _ Wk _ Hbo) as Hlt || pose proof (wf_fresh _ _ Wk _ Hb) as Hlt.
+          split; [apply (ext_live _ _ _ Ge); left; by apply (wf_owned_live _ _ Wk)|].
+          destruct (ext_below _ _ _ Ge b Hlt) as [_ ->]. split; [by apply (wf_owned_lib _ _ Wk)|].
+          pose proof (ext_next _ _ _ Ge). lia. }
+    (* its canonical insertion: add_item_to_array *)
+    assert (Hxroots : x ∉ roots Fk).
+    { intros Hc. apply roots_subseteq_ids in Hc. pose proof (WF_ids_fresh _ _ _ Wk Hc). subst x. lia. }
+    assert (Hroot : find_root x (Fk ++ [leaf]) = Some leaf) by (apply (find_root_snoc Fk leaf); done).
+    assert (Hrem : remove_root x (Fk ++ [leaf]) = Fk) by (apply (remove_root_snoc Fk leaf); done).
+    assert (Hfa : find_tree a (remove_root x (Fk ++ [leaf])) = Some (T a arr leaves)).
+    { rewrite Hrem. apply (find_tree_snoc_root F (T a arr leaves)). apply Wk. }
+    destruct (add_item_to_array_sim Hc1 (Fk ++ [leaf]) a x leaf arr leaves W1 Hxa Hroot Hfa eq_refl) as (_ & S2 & S3).
+    rewrite Hrem in S2, S3. unfold Fk in S2, S3. rewrite (set_children_snoc_root F a arr leaves _ a_notin) in S2, S3.
+    set (F2 := F ++ [T a arr (leaves ++ [leaf])]) in *.
+    set (Hc2 := upd_maps Hc1 (heap_lnk_of F2) (heap_dat_of F2)) in *.
+    exists Hc2.
+    assert (I2 : Inv Hc2 (leaves ++ [leaf])).
+    { constructor; [exact S3| |].
+      - apply (Ext_mem _ _ (owned_fl (flat [T a arr leaves]) ++ x :: owned_strs d)).
+        + intros b. symmetry. apply owned_fl_root_snoc.
+        + unfold Hc2, Hc1. do 2 apply Ext_upd_maps_r. by apply (Ext_trans _ _ _ _ _ Ek).
+      - intros j t Hj. destruct (decide (j < length leaves)) as [Hlt|Hge].
+        + rewrite lookup_app_l in Hj by done. destruct (Qk j t Hj) as (x' & d' & -> & Hq). exists x', d'. split; [done|].
+          unfold Hc2, Hc1. do 2 apply Q_upd. by apply (Q_ext _ _ _ _ _ Hq Ge).
+        + rewrite lookup_app_r in Hj by lia. destruct (j - length leaves) as [|j'] eqn:Ej; [|done].
+          injection Hj as <-. exists x, d. split; [done|]. assert (j = length leaves) as -> by lia.
+          unfold Hc2, Hc1. by do 2 apply Q_upd. }
+    split; [exact I2|].
+    (* the facts needed to run the code *)
+    assert (Hlive1 : forall c, c = a \/ c = x \/ c ∈ ks -> c ∈ h_live Hc1).
+    { intros c Hc'. cbn. apply (ext_live _ _ _ Ge). destruct Hc' as [->|[->|Hc']]; [by left|right; by left|left; by apply Hks]. }
+    assert (HD1a : D1 !! a = Some (mk_dat arr ks)) by (unfold D1; rewrite Gd, lookup_insert_ne by done; exact Hda).
+    assert (HH' : H' = upd_maps Hc1 (h_lnk H') D1) by (unfold Hc1, D1; rewrite upd_maps_upd_maps; by rewrite upd_maps_id).
+    assert (HHc1 : Hc1 = upd_maps Hc1 L1 D1) by reflexivity.
+    destruct leaves as [|t0 leaves0] eqn:Eleaves.
+    - (* first element: a->child = n *)
+      cbn [length Z.of_nat Z.eqb]. cbn [fmap list_fmap head] in Gl. fold L1 in Gl.
+      rewrite HH', Gl.
+      rewrite (run_set_child Hc1 L1 D1 a _ (Some x) (Hlive1 a ltac:(auto)) HD1a).
+      (* the canonical maps, read off add_item_to_array *)
+      rewrite HHc1 in S2. unfold add_item_to_array in S2. cbn [is_null orb] in S2. rewrite (ptr_eqb_Some_ne _ _ Hxa) in S2.
+      rewrite (run_get_child_bind _ _ Hc1 L1 D1 a _ (Hlive1 a ltac:(auto)) HD1a) in S2.
+      cbn [nd_child mk_dat child_of rd_ref arr rd_of_type is_null] in S2. rewrite !bindM_assoc in S2.
+      rewrite (run_set_child_bind _ Hc1 L1 D1 a _ (Some x) (Hlive1 a ltac:(auto)) HD1a) in S2. rewrite !bindM_assoc in S2.
+      rewrite run_set_prev_bind in S2 by (auto || (unfold L1; rewrite lookup_insert; eauto)).
+      rewrite run_set_next_bind in S2 by (auto || (rewrite is_Some_upd_prev; unfold L1; rewrite lookup_insert; eauto)).
+      unfold ret in S2. injection S2 as S2. apply upd_maps_inj in S2 as [SL SD].
+      unfold act. cbn [app fmap list_fmap head tid leaf]. unfold Hc2. cbn [h_lnk h_dat upd_maps].
+      rewrite <- SL, <- SD. do 2 f_equal.
+      unfold L1. rewrite upd_next_prev_insert. rewrite (upd_prev_insert _ _ _ (None, Some x)) by (by rewrite lookup_insert).
+      cbn. by rewrite insert_insert.
+    - (* later elements: suffix_object(p, n) *)
+      rewrite <- Eleaves in *. assert (Hlen : length leaves <> 0) by (rewrite Eleaves; cbn; lia).
+      destruct (Z.eqb_spec (Z.of_nat (length leaves)) 0) as [E0|_]; [lia|].
+      assert (Hh : head ks = Some (tid t0)) by (unfold ks; rewrite Eleaves; reflexivity).
+      set (c0 := tid t0) in *.
+      destruct (last ks) as [tl|] eqn:Hlast; [|apply last_None in Hlast; unfold ks in Hlast; rewrite Eleaves in Hlast; done].
+      assert (Hc0 : c0 ∈ ks) by (by apply head_Some_elem_of).
+      assert (Htl : tl ∈ ks) by (by apply last_Some_elem_of).
+      assert (c0 <> x) by (intros ->; done). assert (tl <> x) by (intros ->; done).
+      rewrite head_lookup in Hh.
+      rewrite Hh in Gl.
+      set (A1 := <[x := (None, None)]> (upd_prev c0 None (h_lnk Hc))) in *.
+      assert (HA1 : forall c, c = x \/ c ∈ ks -> is_Some (A1 !! c)).
+      { intros c [->|Hc']; [unfold A1; rewrite lookup_insert; eauto|].
+        unfold A1. rewrite lookup_insert_ne by (intros ->; done). rewrite is_Some_upd_prev.
+        apply elem_of_list_lookup in Hc' as [k Hk]. rewrite (Hlk _ _ Hk). eauto. }
+      assert (HL1 : forall c, c = x \/ c ∈ ks -> is_Some (L1 !! c)).
+      { intros c [->|Hc']; [unfold L1; rewrite lookup_insert; eauto|].
+        unfold L1. rewrite lookup_insert_ne by (intros ->; done).
+        apply elem_of_list_lookup in Hc' as [k Hk]. rewrite (Hlk _ _ Hk). eauto. }
+      rewrite HH', Gl. unfold suffix_object.
+      rewrite run_set_next_bind by auto.
+      rewrite run_set_prev by (auto || (rewrite is_Some_upd_next; auto)).
+      (* the canonical maps *)
+      rewrite HHc1 in S2. unfold add_item_to_array in S2. cbn [is_null orb] in S2. rewrite (ptr_eqb_Some_ne _ _ Hxa) in S2.
+      rewrite (run_get_child_bind _ _ Hc1 L1 D1 a _ (Hlive1 a ltac:(auto)) HD1a) in S2.
+      change (nd_child (mk_dat arr ks)) with (child_of arr ks) in S2.
+      rewrite <- head_lookup in Hh. rewrite (child_of_head _ _ _ Hh) in S2. rewrite head_lookup in Hh. cbn [is_null] in S2.
+      assert (HL1c0 : L1 !! c0 = Some (link_at ks 0)) by (unfold L1; rewrite lookup_insert_ne by done; by apply Hlk).
+      rewrite bindM_assoc in S2.
+      rewrite (run_get_prev_bind _ Hc1 L1 D1 c0 _ (Hlive1 c0 ltac:(auto)) HL1c0) in S2.
+      rewrite link_at_0 in S2. cbn [snd] in S2. rewrite Hlast in S2. cbn [is_null negb when] in S2. rewrite !bindM_assoc in S2.
+      rewrite (run_get_prev_bind _ Hc1 L1 D1 c0 _ (Hlive1 c0 ltac:(auto)) HL1c0) in S2.
+      rewrite link_at_0 in S2. cbn [snd] in S2. rewrite Hlast in S2.
+      unfold suffix_object in S2. rewrite !bindM_assoc in S2.
+      rewrite run_set_next_bind in S2 by auto.
+      rewrite run_set_prev_bind in S2 by (auto || (rewrite is_Some_upd_next; auto)).
+      rewrite ?bindM_assoc in S2.
+      rewrite (run_get_child_bind _ _ Hc1 _ D1 a _ (Hlive1 a ltac:(auto)) HD1a) in S2.
+      change (nd_child (mk_dat arr ks)) with (child_of arr ks) in S2.
+      rewrite <- head_lookup in Hh. rewrite (child_of_head _ _ _ Hh) in S2.
+      rewrite run_set_prev_bind in S2 by (auto || (rewrite is_Some_upd_prev, is_Some_upd_next; auto)).
+      unfold ret in S2. injection S2 as S2. apply upd_maps_inj in S2 as [SL SD].
+      assert (Hh2 : head (tid <$> (leaves ++ [leaf])) = Some c0) by (rewrite Eleaves; reflexivity).
+      unfold act. rewrite Hh2. unfold Hc2. cbn [h_lnk h_dat upd_maps].
+      rewrite <- SL, <- SD. do 2 f_equal.
+      rewrite upd_prev_upd_prev. rewrite (upd_prev_commute c0 x) by done. rewrite upd_prev_upd_next.
+      unfold L1, A1. by rewrite upd_prev_insert_ne by done.
+  Qed.
+End Loop.
